@@ -41,6 +41,15 @@ func (m *Method) Call(s *Scope, args List, depth int) Object {
 			return c.Wrap.Call(ws, args, depth+1)
 		}
 	}
+	if s.Has("~whopper-location~") && s.Get("~whopper-location~") != nil {
+		// The call is made from within a wrapper of another call. The
+		// location of that call is hidden so that an attempt to continue
+		// from a before, primary, or after method of this call is reported
+		// instead of continuing the other call.
+		is := s.NewScope()
+		is.Let("~whopper-location~", nil)
+		s = is
+	}
 	return m.InnerCall(s, args, depth)
 }
 
